@@ -1,10 +1,10 @@
 """C07 — first-fit is greedy-maximal."""
 from fragbase import *
 from wrapbase import *
-import kernel as K
+from kernelfit import FitKernels
 
 
-class C07(FragHarness, WrapHarness):
+class C07(FitKernels, FragHarness, WrapHarness):
     prop = 'C07'
     features = ('full', 'nd')
     validate_every = 5
@@ -49,7 +49,7 @@ class C07(FragHarness, WrapHarness):
 
     def run(self, I, cfg):
         if cfg['level'] == 'kernel':
-            return self.run_kernel(I, cfg)
+            return self.run_kernel_first_fit(I, cfg)
         if cfg['level'] == 'frag':
             inp = self.gen_frags(I, cfg)
             I.inputs = inp
@@ -60,106 +60,6 @@ class C07(FragHarness, WrapHarness):
             out = self.run_wrap(I, cfg, inp)
         self.oracle(I, cfg, inp, out)
         return out
-
-    # ---------------------------------------------------------------- kernel mode
-    def run_kernel(self, I, cfg):
-        f = I.items.get('wrap_first_fit')
-        if f is None:
-            raise Unsupported('kernel: wrap_first_fit not found')
-        K.compile_fn(f)
-        d = f.debug
-        for nm in ('fragments', 'line_widths', 'default_line_width', 'lines', 'start', 'width', 'iter'):
-            if nm not in d:
-                raise Unsupported('kernel: local `%s` not found in wrap_first_fit (code restructured?)' % nm)
-        fp = cfg.get('num') == 'fp'
-        B = 1 << 40
-
-        def num(name):
-            if fp:
-                v = z3.FP(name, z3.Float64())
-                I.add(z3.Not(z3.fpIsNaN(v)))
-                I.add(z3.Not(z3.fpIsInf(v)))
-                return SymFP(v)
-            return SymF(I.sym_int(name, -B, B))
-        n = I.sym_int('n', 0, B)
-        idx = I.sym_int('idx', 0, B)
-        start = I.sym_int('start', 0, B)
-        k = I.sym_int('k', 0, B)
-        Lw = I.sym_int('L', 0, B)
-        I.add(idx <= n)
-        I.add(z3.If(idx == 0, start == 0, start <= idx - 1))        # the loop invariant
-        width = num('acc')
-        frags = K.AbsFrags(I, n, lambda j: Agg('F', [num('w%d' % j), num('s%d' % j), num('p%d' % j)]))
-        lws = K.AbsWidths(I, Lw, lambda j: num('lw%d' % j))
-        if I.branch(v_lt(0, Lw)):
-            dl = lws.at(v_sub(Lw, 1))
-        else:
-            dl = SymFP(z3.FPVal(0.0, z3.Float64())) if fp else SymF(z3.IntVal(0))
-        lines = K.AbsLines(k)
-        it = K.AbsEnumIter(frags, idx)
-        L = {0: None, 1: frags, 2: lws, d['default_line_width']: dl, d['lines']: lines, d['start']: start,
-             d['width']: width, d['iter']: it}
-        head = K.find_loop_head(f, d['iter'])
-        saved = (I.models, I.resolved)
-        if not hasattr(self, '_kmodels'):
-            self._kmodels = K.KernelModels(self.tables, I.native)
-        I.models, I.resolved = self._kmodels, {}
-        I.inputs = None
-        try:
-            res = I.exec_blocks(f, L, head, {head})
-        except (KeyError, Unsupported) as e:
-            # the loop no longer has the shape the kernel harness knows (e.g. a new loop-carried local): the
-            # inductive-step claim is simply not made for this tree; the bounded spaces still decide the property
-            raise OutOfBounds('kernel mode not applicable to this code shape: %s' % (e,))
-        finally:
-            I.models, I.resolved = saved
-
-        def lt(a, b):
-            return I.fbinop('Lt', a, b)
-
-        def addf(a, b):
-            return I.fbinop('Add', a, b)
-
-        def eqf(a, b):
-            if isinstance(a, SymFP):
-                return a.t == b.t if a.t.eq(b.t) or True else None
-            return I.fbinop('Eq', a, b)
-        if res[0] == 'stopped':
-            fr = frags.elem(idx)
-            w, s, p = fr.f
-            I.check(v_eq(it.pos, v_add(idx, 1)), 'kernel-iterator-advances', 'iterator did not advance by one')
-            lw = lws.at(k) if I.branch(v_lt(k, Lw)) else dl
-            over = lt(lw, addf(addf(width, w), p))
-            expect_break = v_and(v_lt(start, idx), over)
-            start2, width2 = L[d['start']], L[d['width']]
-            if lines.pushed:
-                sub = lines.pushed[0]
-                I.check(len(lines.pushed) == 1 and isinstance(sub, K.AbsSub), 'kernel-one-push', 'more than one line pushed')
-                I.check(v_and(v_eq(sub.a, start), v_eq(sub.b, idx), v_lt(start, idx)), 'kernel-pushed-line-is-start-to-idx',
-                        'the emitted line is not the non-empty run fragments[start..idx]')
-                I.check(expect_break, 'break-only-when-overflowing',
-                        'a break was placed although the line is empty or the fragment fits')
-                I.check(v_eq(start2, idx), 'kernel-start-updated', 'start not set to idx after a break')
-                I.check(I.fbinop('Eq', width2, addf(w, s)) if not fp else width2.t.eq(addf(w, s).t) or
-                        I.fbinop('Eq', width2, addf(SymFP(z3.FPVal(0.0, z3.Float64())), addf(w, s))),
-                        'kernel-width-reset', 'accumulated width after a break is not width+whitespace of the fragment')
-            else:
-                I.check(v_not(expect_break) if not isinstance(expect_break, bool) else (not expect_break),
-                        'no-break-when-overflowing', 'no break although the line is non-empty and the fragment does not fit')
-                I.check(v_eq(start2, start), 'kernel-start-kept', 'start changed without a break')
-                I.check(I.fbinop('Eq', width2, addf(width, addf(w, s))), 'kernel-width-accumulates',
-                        'accumulated width is not previous + width + whitespace')
-            I.check(v_le(start2, idx), 'kernel-invariant-preserved', 'invariant start <= idx broken')
-            return 'step'
-        # loop exit: the iterator is exhausted; exactly the final line [start..n] is pushed
-        I.check(v_eq(it.pos, n) if not isinstance(v_eq(it.pos, n), bool) else it.pos == n, 'kernel-exit-at-end',
-                'loop left before the last fragment')
-        ok = len(lines.pushed) == 1 and isinstance(lines.pushed[0], K.AbsSub)
-        if I.check(ok, 'kernel-final-line', 'final line not pushed exactly once'):
-            sub = lines.pushed[0]
-            I.check(v_and(v_eq(sub.a, start), v_eq(sub.b, n)), 'kernel-final-line', 'final line is not fragments[start..]')
-            I.check(v_or(v_eq(n, 0), v_lt(start, n)), 'kernel-final-line-non-empty', 'final line empty for non-empty input')
-        return 'exit'
 
     def native(self, nat, cfg, inp):
         if cfg['level'] == 'frag':
